@@ -33,7 +33,7 @@ POLLS = (0.5, 1.0, 2.5)
 RATES = (0, 0.7, 1.0, 3.0, 10.0)
 PTIMEOUTS = (None, 0, 1.5, 4.0, 9.0)
 CTIMEOUTS = (None, 0, 1.0, 3.3)
-HIST = ('silent', 'pong-prompt', 'pong-delayed', 'pong-stops', 'data-regular', 'data-on-multiples', 'data-random',
+HIST = ('eventless-traffic', 'silent', 'pong-prompt', 'pong-delayed', 'pong-stops', 'data-regular', 'data-on-multiples', 'data-random',
         'app-close-reply', 'app-close-noreply', 'server-close-drop-late', 'server-close-nodrop', 'mixed')
 
 
@@ -71,6 +71,11 @@ def build(case):
             steps.append(('pong_mode', rnd.choice((0.3, 1.7, 5.0, p, (t or 1.0)))))
         elif k == 'pong-stops':
             steps.append(('pong_mode', rnd.choice((0.01, 0.3)), rnd.uniform(2 * p, 20 * p)))
+        elif k == 'eventless-traffic':
+            # non-final fragments several times per poll interval: the socket is readable on every wake-up,
+            # yet no event is produced - Poll, pings and timeouts must run all the same
+            q = rnd.choice((p / 4, p / 2, 0.3))
+            steps.append(('drip', F(2, b'e', fin=0), F(0, b'e', fin=0), int(horizon / q), q))
         elif k == 'data-regular':
             q = rnd.choice((0.3, p, r or 0.9, p / 2))
             x = q
